@@ -1,2 +1,4 @@
 import CanopenProofs.C04
 import CanopenProofs.C05
+import CanopenProofs.C02
+import CanopenProofs.C06
